@@ -264,7 +264,9 @@ def run(tier, seed):
                              "reference_processes": len(seeds),
                              "launches_with_overlapping_first_operations": dict(overlap)}
     missing = sorted(set(inst) - set(contended))
-    if missing:
+    if missing and not rep.violations:
+        # every static of the (baseline-conforming) table must be the contended one in some launch; when the scanner has
+        # already reported statics that are not in the baseline, those are the violation and have no plan by construction
         raise vlib.ModelError("statics never contended by any plan: %s" % missing)
     results, st2 = vlib.validate(events, wd, module="StaticInitTrace")
     rep.states += st2[0]; rep.transitions += st2[1]
